@@ -202,6 +202,13 @@ def main(ctx):
                        "4 ulp(max(L,|args|)) for separations (roundings that correct code legitimately performs)"]
     jobs = [{"seed": ctx.seed, "shard": s, "boxes": boxes, "npos": npos} for s in range(nshards)]
     ctx.run_workers("vf.monitors.c15:shard", jobs)
+    # the same contract on the arithmetic real runs perform (sampled), at simulation times up to the configured ends
+    from vf.monitors import suite
+    rj = suite.jobs_for(ctx, ("C15",), ctx.pick(6, 40), ctx.pick(3000, 40000), ctx.pick(1500, 15000), ctx.pick(2500, 20000),
+                        shipped=["coulomb_atoms/power_bounded", "dipoles/dipole_motion", "water/coulomb_power_bounded_lj_inverted",
+                                 "hard_disk_dipoles/hard_disk_dipoles_cells", "coulomb_atoms/cell_bounded"])
+    suite.run_suite(ctx, ("C15",), rj, timeout=ctx.pick(900, 3000))
+    ctx.require("in_run_position_corrections_checked", 2000)
     ctx.require("position_entries", 10000)
     ctx.require("separations_at_half_box", 100)
     ctx.require("cubic_vs_cuboid", 1000)
